@@ -83,6 +83,10 @@ CHECKS = {
             "Hypothesis-generated loop-free internetworks x generated message lists (cold and warm, bursts) on real NSAP/NSE stations and multi-port routers; oracle derived from the topology graph, wire monitor on an independent NPCI decoder",
             "Random bipartite trees of 2..8 networks with routers of 2..4 ports and stations that do or do not know their network number carry unicasts, remote broadcasts, global and local broadcasts - each sent cold (path discovery needed) and warm, also as same-instant bursts to one undiscovered network; the multiset of (station, token) handed above the network layer must equal the graph-derived recipient set exactly, the source address shown must route a reply back to the originator alone, and every LAN frame carrying the token must have hop count 255 - router distance and be emitted only by the router on the path from the source. Injected hop counts 0..3 must die out after as many hops; rings of 3 and 4 networks must reach quiescence within a frame bound for global, remote-broadcast and remote-unicast traffic.",
             "Exactly-once is not asserted in cyclic topologies, only termination; the full (source, kind, destination) cross product is enumerated on three fixed topologies, sampled elsewhere."),
+    "C13": ("exploration",
+            "model-based timelines (Hypothesis layouts x operation lists, shrinkable) on real BIPSimple / BIPBBMD / BIPForeign layers over virtual IP subnets under virtual time; oracle = Annex J reachability computed from the tables + two-sided registration window read off the wire",
+            "Random layouts of 1..5 subnets with 0..1 BBMD and 0..3 ordinary nodes each, 0..4 foreign devices with TTL 1..300 s registered with any BBMD, full and partial distribution tables with two-hop or directed-broadcast masks carry broadcasts from every kind of node at generated instants placed around every registration edge (TTL, TTL+5, TTL+30, TTL+31, renewals), with renewals cut off, unregistration, Delete-FDT-Entry and Read-FDT by BVLL message; the PDUs handed above each node's B/IP layer must equal the table-derived recipient set exactly once each, never the originator, with the originator's address as source; a foreign device nobody interferes with is served without a gap, one whose renewals stop is served for its TTL, may be served up to TTL+31 s and must be neither served nor listed afterwards, a deleted entry stops service at once and an unregistered one within the grace period.",
+            "A foreign device is never placed on its registrar's subnet, nor next to another BBMD when directed-broadcast masks are used (Annex J duplicates by design); the grace constant is judged as a window (5 s in the BBMD, 30 s in the device, 30 in Annex J); Distribute-Broadcast from an unlisted address is measured, not asserted."),
 }
 
 NOT_YET = {}
